@@ -466,7 +466,13 @@ func runC08(c *Ctx) error {
 			c08PageCheck(c, t, name, ops, op, 0, r.Merkle, out)
 			c.R.Count("key with batch size 0:"+r.State, 1)
 		}
-		for _, k := range []string{"deadbeef", strings.Repeat("ab", 32), "x", "deadbeef", "x"} {
+		someRoot := t.rows[len(t.rows)/2].Merkle
+		// pattern-like and near-miss keys: only an exact merkle root is a key
+		for _, k := range []string{"deadbeef", strings.Repeat("ab", 32), "x", "deadbeef", "x", "%", strings.Repeat("_", 64), someRoot[:12] + "%", "%" + someRoot[40:],
+			strings.ToUpper(someRoot), someRoot[:63]} {
+			if k == someRoot {
+				continue // an all-digit root has no upper-case variant
+			}
 			op := "roots 3 " + k
 			if k == "deadbeef" || k == "x" {
 				if zeroDone[k] {
